@@ -491,15 +491,34 @@ func init() {
 		call(fr.i, fr, 0, a[1], nil)
 		return nil
 	}
+	// sync.Pool: an item that was Put is handed out again by the next Get (last in, first
+	// out) - one of the behaviours the runtime may show, and the one under which retaining
+	// a pooled object after Put is visible. The pool content is per path.
 	intrinsics["(*sync.Pool).Get"] = func(fr *frame, fn *ssa.Function, a []value) value {
-		pool := (*a[0].(*value)).(structure)
+		key := a[0].(*value)
+		if items := fr.i.p.pools[key]; len(items) > 0 {
+			it := items[len(items)-1]
+			fr.i.p.pools[key] = items[:len(items)-1]
+			return it
+		}
+		pool := (*key).(structure)
 		newFn := pool[len(pool)-1]
 		if f, ok := newFn.(*ssa.Function); ok && f == nil {
 			return iface{}
 		}
 		return call(fr.i, fr, 0, newFn, nil)
 	}
-	intrinsics["(*sync.Pool).Put"] = nop
+	intrinsics["(*sync.Pool).Put"] = func(fr *frame, fn *ssa.Function, a []value) value {
+		if it, ok := a[1].(iface); ok && it.t == nil {
+			return nil // Put(nil) is a no-op
+		}
+		if fr.i.p.pools == nil {
+			fr.i.p.pools = map[*value][]value{}
+		}
+		key := a[0].(*value)
+		fr.i.p.pools[key] = append(fr.i.p.pools[key], a[1])
+		return nil
+	}
 	intrinsics["runtime.SetFinalizer"] = nop
 	intrinsics["runtime.KeepAlive"] = nop
 	intrinsics["time.Now"] = func(fr *frame, fn *ssa.Function, a []value) value {
